@@ -253,3 +253,39 @@ pub open spec fn literal_header_layout(mode: u8, file_name: Seq<u8>, date: Seq<u
 pub open spec fn marker_layout() -> Seq<u8> { seq![0x50u8, 0x47u8, 0x50u8] }
 // ---- RFC 9580 5.11 User ID (the body is the UTF-8 text), 5.14 Padding (the body is random octets), 5.13.1 the
 //      20-octet SHA-1 of the deprecated Modification Detection Code packet: the body is the field itself
+
+// ---- RFC 9580 5.2: Signature packet (type ID 2) --------------------------------------------------
+// 5.2.2 version 3:  One-octet version number (3).  One-octet length of the following hashed material; it MUST be 5:
+//   one-octet signature type ID, four-octet creation time.  Eight-octet Key ID of the signer.  One-octet public-key
+//   algorithm ID.  One-octet hash algorithm ID.  Two-octet field holding left 16 bits of the signed hash value.
+//   One or more MPIs comprising the signature.           (version 2 has the same layout with version octet 2)
+pub open spec fn sig_v3_layout(version: u8, typ: u8, created: Seq<u8>, key_id: Seq<u8>, pk: u8, hash: u8, hash16: Seq<u8>, sig: Seq<u8>) -> Seq<u8>
+    recommends created.len() == 4, key_id.len() == 8, hash16.len() == 2
+{
+    seq![version, 5u8, typ] + created + key_id + seq![pk, hash] + hash16 + sig
+}
+// 5.2.3 versions 4 and 6:  One-octet version number.  One-octet signature type ID.  One-octet public-key algorithm ID.
+//   One-octet hash algorithm ID.  A scalar octet count for the hashed subpacket data that follows this field: two
+//   octets for version 4, four octets for version 6.  Hashed subpacket data set.  A scalar octet count for the
+//   following unhashed subpacket data (two / four octets).  Unhashed subpacket data set.  Two-octet field holding the
+//   left 16 bits of the signed hash value.  Only for version 6: a one-octet salt size and the salt.  One or more MPIs
+//   (or native octets) comprising the signature.
+pub open spec fn sig_v4_layout(typ: u8, pk: u8, hash: u8, hashed: Seq<u8>, unhashed: Seq<u8>, hash16: Seq<u8>, sig: Seq<u8>) -> Seq<u8>
+    recommends hashed.len() <= 0xFFFF, unhashed.len() <= 0xFFFF, hash16.len() == 2
+{
+    seq![4u8, typ, pk, hash] + be16(hashed.len() as u16) + hashed + be16(unhashed.len() as u16) + unhashed + hash16 + sig
+}
+pub open spec fn sig_v6_layout(typ: u8, pk: u8, hash: u8, hashed: Seq<u8>, unhashed: Seq<u8>, hash16: Seq<u8>, salt: Seq<u8>, sig: Seq<u8>) -> Seq<u8>
+    recommends hashed.len() <= 0xFFFF_FFFF, unhashed.len() <= 0xFFFF_FFFF, hash16.len() == 2, salt.len() <= 255
+{
+    seq![6u8, typ, pk, hash] + be32(hashed.len() as u32) + hashed + be32(unhashed.len() as u32) + unhashed + hash16
+        + seq![salt.len() as u8] + salt + sig
+}
+/// a version this implementation does not know: the body after the version octet is kept opaque
+pub open spec fn sig_unknown_layout(version: u8, data: Seq<u8>) -> Seq<u8> { seq![version] + data }
+/// RFC 9580 9.5 (Table 23): salt size of a version 6 signature per hash algorithm id (SHA2-256 16, SHA2-384 24,
+/// SHA2-512 32, SHA2-224 16, SHA3-256 16, SHA3-512 32), none for the other hash algorithms
+pub open spec fn sig_salt_len(hash_id: u8) -> Option<int> {
+    if hash_id == 8 { Some(16int) } else if hash_id == 9 { Some(24int) } else if hash_id == 10 { Some(32int) }
+    else if hash_id == 11 { Some(16int) } else if hash_id == 12 { Some(16int) } else if hash_id == 14 { Some(32int) } else { None }
+}
